@@ -239,7 +239,8 @@ def elem_of(term, fn, vl):
             hits.append((vl.site_elem[bb][2], bb, c))
         elif isinstance(c, tuple) and c and c[0] == "elemk" and isinstance(c[2], int) and c[2] >= 0:
             # element i of the [T; N] the input vector was converted to
-            conv = [s for s in subterms(c[1]) if is_call(s, "core::convert::TryInto::try_into") and len(s) > 3 and s[3]
+            conv = [s for s in subterms(c[1]) if (is_call(s, "core::convert::TryInto::try_into") or is_call(s, "core::convert::TryFrom::try_from"))
+                    and len(s) > 3 and s[3]
                     and s[3][0] == fn.key and s[3][1] in vl.array_orig]
             if len(conv) == 1:
                 orig = vl.array_orig[conv[0][3][1]]
@@ -379,6 +380,16 @@ def _full_self(fn, c):
 def _converter_type(prog, conv):
     """element type decoded by the function / closure handed to try_as_array_then_convert"""
     if conv[0] == "fn":
+        key = conv[2] if len(conv) > 2 else None
+        f = prog.fns.get(key)
+        if f is not None and prog.is_private_helper(key) and f.arg_count == 1:
+            # a private named function used as the converter is the closure it replaces
+            rt = Prov(f).return_term()
+            for c in subterms(rt):
+                if is_call(c) and (c[1].endswith("::from_cbor_value") or c[1].endswith("::from_cbor_value_depth")):
+                    if c[2] and c[2][0] == ("param", 0):
+                        return type_of_decoder(_full_self(f, c))
+            return "?"
         return type_of_decoder(conv[1])
     if conv[0] == "closure":
         f = prog.fns.get(conv[1])
